@@ -193,7 +193,7 @@ class DataType(metaclass=_DataTypeMeta):
         `DataError` if it returns less data than requested.
         """
         data = stream.read(size)
-        if not data:
+        if not data and size != 0:
             raise BufferEmptyError()
         if len(data) < size:
             raise DataError(f"Expected {size} bytes, got {len(data)}: {data!r}")
